@@ -7,7 +7,9 @@ R120 == <<<<0,1,0>>,<<0,0,1>>,<<1,0,0>>>>
 (* molecule on the binned grid: voxel 0 samples binned index j0 (so q2 = 2*j0 + s - 1) *)
 CasesDef ==
   {c \in [n : Shapes, b : 1..6, s : Boxes, j0 : {<<0, 0, 0>>, <<0, 1, 0>>, <<1, 0, 1>>, <<1, 1, 1>>}, R : {MId, R90z, R120},
-          order : {0, 1, 3}, kind : {"single", "batch"}, lazy : BOOLEAN, compute : BOOLEAN, q2 : {<<0,0,0>>}] :
+          order : {0, 1, 3}, kind : {"single", "batch"}, lazy : BOOLEAN, mix : BOOLEAN, compute : BOOLEAN, q2 : {<<0,0,0>>}] :
+     \* mix: a batch whose first tomogram is a numpy array and whose second one is lazy (dask)
+     /\ (c.mix => (c.kind = "batch" /\ c.lazy))
      /\ (c.R # MId => c.s = <<3,3,3>>)
      \* a rotation that went through a float32 rotation vector is exact only up to rounding: keep rotated
      \* boxes strictly inside the binned image so no sample sits exactly on its edge
